@@ -292,9 +292,14 @@ fn mpqs_case(out: &mut Out, rng: &mut StdRng, case: &str, n: &Uint, fbsize: u32,
     };
     log_fbase(out, case, "mpqs", &nint, fbsize, &fb, 640);
     let inverters: Vec<_> = (0..fb.len()).map(|i| arith::Inverter::new(fb.p(i))).collect();
-    for chunk in ds.chunks(16) {
+    // all chunks go through ONE workspace, as in the real polynomial block loop (stale entries of a previous
+    // chunk must not leak into the next one)
+    let all_chunks: Vec<Vec<u128>> = ds.chunks(16).map(|c| c.iter().map(|x| x.0).collect()).collect();
+    let mut seq = guard(|| mpqs::vhook::batch_dinv_seq(n, &fb, all_chunks.clone())).ok();
+    for (ci, chunk) in ds.chunks(16).enumerate() {
         let dvals: Vec<u128> = chunk.iter().map(|x| x.0).collect();
-        let dinvs = match guard(|| mpqs::vhook::batch_dinv(n, &fb, dvals.clone())) {
+        let taken = seq.as_mut().and_then(|v| if ci < v.len() { Some(std::mem::take(&mut v[ci])) } else { None });
+        let dinvs = match taken.map(Ok).unwrap_or_else(|| guard(|| mpqs::vhook::batch_dinv(n, &fb, dvals.clone()))) {
             Ok(v) => v,
             Err(e) => {
                 let mut o = Map::new();
@@ -533,6 +538,20 @@ pub fn run(args: &Args) -> i32 {
                 }
                 mpqs_case(&mut out, &mut rng, &case, &n, fbsize, mm, ds, full_max, &mut budget);
             }
+        }
+    }
+    // several chunks of 16 polynomials through one workspace, with D inside the factor base in every chunk: the
+    // 1/D mod p table is reused from chunk to chunk and the entry for p | D must be reset each time
+    for (bits, r8) in [(64u32, 1u64), (72, 7)] {
+        let n = gen_n(&mut rng, bits, r8);
+        let case = format!("mpqs/chunks/{}/{}", bits, r8);
+        let mm = mpqs::vhook::mpqs_interval_size(&n);
+        let fbsize = yamaquasi::params::mpqs_fb_size(bits, false);
+        if let Ok(mut v) = guard(|| mpqs::sieve_for_polys(&n, 3, 6000)) {
+            // D^4 < n keeps C < 0 (the domain of the p | D branch)
+            v.retain(|(d, _)| { let d2 = Uint::from(*d as u64) * Uint::from(*d as u64); d2 * d2 < n });
+            v.truncate(if thorough { 80 } else { 40 });
+            mpqs_case(&mut out, &mut rng, &case, &n, fbsize, mm, v, full_max, &mut budget);
         }
     }
     // a composite D that passes the pseudo-square test: D = 211 * 229 = 48319 = 3 mod 4 and n = 1 mod D
